@@ -16,8 +16,9 @@ AttU   == {A("k1"), [key |-> "k1", sp |-> "0x"], A("k2")}
 LimU   == {[denom |-> MINT, amt |-> 1], [denom |-> MINT, amt |-> 2], [denom |-> "MINT_UP", amt |-> 1], [denom |-> "OTHER", amt |-> ABSENT]}
 PairU  == {[d |-> "d1", t |-> B("j", "t1"), denom |-> MINT], [d |-> "d1", t |-> B("j", "t1"), denom |-> "OTHER"],
            [d |-> "d2", t |-> B("j", "t1"), denom |-> MINT], [d |-> "d1", t |-> B("j", "t2"), denom |-> "MINT_UP"]}
-UsedU  == {[d |-> "d1", n |-> 0], [d |-> "d1", n |-> 1], [d |-> "d2", n |-> 0]}
-MsgrU  == {[d |-> "d1", addr |-> B("j", "m1")], [d |-> "d1", addr |-> B("j", "m2")], [d |-> "d2", addr |-> B("j", "m1")]}
+\* (d4, d5 are domains whose big-endian encoding starts with 0xFF)
+UsedU  == {[d |-> "d1", n |-> 0], [d |-> "d1", n |-> 1], [d |-> "d5", n |-> 0]}
+MsgrU  == {[d |-> "d1", addr |-> B("j", "m1")], [d |-> "d1", addr |-> B("j", "m2")], [d |-> "d4", addr |-> B("j", "m1")]}
 
 Default == [owner |-> "a1", attMgr |-> "a2", pauser |-> "a3", tokCtl |-> "a1",
             attesters |-> <<A("k1"), A("k2")>>, limits |-> <<[denom |-> MINT, amt |-> 2]>>,
